@@ -188,6 +188,8 @@ func readSummary(path string) (*WorkerSummary, error) {
 	return s, nil
 }
 
+const maxReported = 12
+
 // Check runs one property's check and returns the process exit code.
 func Check(a CheckArgs) int {
 	t0 := time.Now()
@@ -369,8 +371,16 @@ func Check(a CheckArgs) int {
 	nViol := 0
 	var knownMatched []string
 	var violSummaries []map[string]any
+	reported := 0
 	for _, key := range sigs {
 		fv := bySig[key]
+		if _, ok := knownSig[key]; !ok {
+			reported++
+			if reported > maxReported {
+				nViol++
+				continue
+			}
+		}
 		if k, ok := knownSig[key]; ok {
 			fmt.Printf("KNOWN-FINDING: property=%s %s -- %s (occurrences this run: %d)\n", fv.Property, fv.Signature, k.What, total.SigCounts[key])
 			knownMatched = append(knownMatched, fv.Signature)
@@ -407,6 +417,9 @@ func Check(a CheckArgs) int {
 		fmt.Printf("  kind=%s signature=%s occurrences=%d run=%d tape_len=%d shrunk=%v replayed_in_fresh_process=%v\n  %s\n",
 			fv.Kind, fv.Signature, total.SigCounts[key], fv.Run, len(rf.Tape), rf.Shrunk, rf.ReplayedOK, firstLines(fv.Detail, 12))
 		violSummaries = append(violSummaries, map[string]any{"kind": fv.Kind, "signature": fv.Signature, "replay": path, "detail": firstLines(fv.Detail, 6)})
+	}
+	if reported > maxReported {
+		fmt.Printf("... and %d further distinct violation signatures (not written out; fix the first ones and re-run)\n", reported-maxReported)
 	}
 	for _, v := range postV {
 		key := v.Property + "|" + v.Signature
